@@ -112,13 +112,16 @@ Definition req_of (extras : list bytes) : list bytes :=
 Definition shape_extras (shape : Z) (ex ex2 : list bytes) : list bytes :=
   if (shape =? 1)%Z then [] else if (shape =? 2)%Z then req_of ex ++ req_of ex2 else req_of ex.
 
-Definition multi_item (s : sx) : option (bytes * list bytes) :=
+(* shape 5: the guarded requirement sits on the root, which is asked for plainly and, through a cycle
+   (root -> helper -> root[extras]), with extras: a second request under which the marker may hold *)
+Definition multi_item (s : sx) : option (bytes * list bytes * option (list bytes)) :=
   match s with
   | SL [SB raw; SL ex] =>
-      match decode_bytes_list ex with Some e => Some (raw, req_of e) | None => None end
+      match decode_bytes_list ex with Some e => Some (raw, req_of e, None) | None => None end
   | SL [SB raw; SL ex; SI shape; SL ex2] =>
       match decode_bytes_list ex, decode_bytes_list ex2 with
-      | Some e, Some e2 => Some (raw, shape_extras shape e e2)
+      | Some e, Some e2 =>
+          if (shape =? 5)%Z then Some (raw, [], Some (req_of e)) else Some (raw, shape_extras shape e e2, None)
       | _, _ => None
       end
   | _ => None
@@ -130,9 +133,14 @@ Fixpoint multi_root (valid : bytes -> bool) (sat : N -> bytes -> bytes -> res bo
   | [] => Some (Ok [])
   | it :: rest =>
       match multi_item it, multi_root valid sat rest with
-      | Some (raw, requested), Some tail =>
+      | Some (raw, requested, alt), Some tail =>
           Some (match marker_result valid sat raw requested with
-                | Ok b => match tail with Ok bs => Ok (b :: bs) | e => e end
+                | Ok b0 =>
+                    let b := match alt with
+                             | Some r2 => match marker_result valid sat raw r2 with Ok b2 => orb b0 b2 | _ => b0 end
+                             | None => b0
+                             end in
+                    match tail with Ok bs => Ok (b :: bs) | e => e end
                 | Err e => match tail with Panic p => Panic p | OutOfFuel => OutOfFuel | _ => Err e end
                 | Panic p => Panic p
                 | OutOfFuel => OutOfFuel
